@@ -1,7 +1,231 @@
-/- Driver glue for C16: case lines `c16.<sub> <args…> | <impl…>` (stub until the property is built) -/
+/-
+  Driver glue for C16. Case line:
+    c16.run <count> <interval> <expMs> <nrules> RULE… <nops> OP…
+      RULE := <limit> <c|s> <nconds> (<field> <value>)… <dfield> <nratios> (<pct> <share> <nvals> <value>…)… <defshare>
+      OP   := E <key> <ts> <now> <size> <nfields> (<field> <value>)…   |   X<ticks>
+    (the last rule is the default rule; byte strings are hex tokens)
+  Implementation result:
+    H <nrules> (<defshare> <n> <share>…)…  R <p|d|x:<key>,…|panic:…>…  [S <nlims> (<key> <minID> <maxID> <nrows> <ncols> <v>…)…]
+  The keys an `X` op (wall-clock maintenance of the limiters map) deleted are an observation of
+  the implementation's environment; the model replays them as `expire` ops.
+-/
 import FileD.Prelude.Tok
+import FileD.Model.Throttle
+import FileD.Spec.C16
 namespace FileD.DrvC16
+open FileD Tok FileD.Throttle
 
-def handle (_cmd : String) (_args _impl : List String) : Option (String × String) := none
+abbrev P := StateT (List String) Option
+
+def tok : P String := fun ts =>
+  match ts with
+  | [] => none
+  | t :: r => some (t, r)
+
+def pNat : P Nat := do
+  let t ← tok
+  match t.toNat? with
+  | some n => pure n
+  | none => failure
+
+def pInt : P Int := do
+  let t ← tok
+  match t.toInt? with
+  | some n => pure n
+  | none => failure
+
+def pBytes : P Bytes := do
+  let t ← tok
+  match Hex.dec? t with
+  | some b => pure b
+  | none => failure
+
+def many {α} (p : P α) : Nat → P (List α)
+  | 0 => pure []
+  | n + 1 => do
+    let x ← p
+    let xs ← many p n
+    pure (x :: xs)
+
+def counted {α} (p : P α) : P (List α) := do
+  let n ← pNat
+  many p n
+
+def pPair : P (Bytes × Bytes) := do
+  let f ← pBytes
+  let v ← pBytes
+  pure (f, v)
+
+structure Ratio where
+  share : Int
+  vals : List Bytes
+
+def pRatio : P Ratio := do
+  let _pct ← pNat
+  let share ← pInt
+  let vals ← counted pBytes
+  pure ⟨share, vals⟩
+
+def idxByKeyOf : List Ratio → Nat → List (Bytes × Nat)
+  | [], _ => []
+  | r :: rs, i => r.vals.map (fun v => (v, i)) ++ idxByKeyOf rs (i + 1)
+
+def pRule : P Rule := do
+  let limit ← pInt
+  let k ← tok
+  let kind ← match k with
+    | "c" => pure Kind.count
+    | "s" => pure Kind.size
+    | _ => failure
+  let conds ← counted pPair
+  let dfield ← pBytes
+  let ratios ← counted pRatio
+  let defShare ← pInt
+  -- parseLimitDistribution: no field → the zero value
+  let distr : Distr := if dfield = [] then Distr.empty
+    else ⟨dfield, idxByKeyOf ratios 0, ratios.map (·.share), defShare, true⟩
+  pure ⟨conds, limit, kind, distr⟩
+
+inductive COp
+  | ev (e : Ev)
+  | x (ticks : Nat)
+
+def pOp : P COp := do
+  let t ← tok
+  if t = "E" then do
+    let key ← pBytes
+    let ts ← pInt
+    let now ← pInt
+    let size ← pInt
+    let fields ← counted pPair
+    pure (COp.ev ⟨key, ts, now, size, fields⟩)
+  else if t.startsWith "X" then
+    match (t.drop 1).toNat? with
+    | some n => pure (COp.x n)
+    | none => failure
+  else failure
+
+structure Case where
+  cfg : Cfg
+  ops : List COp
+
+def pCase : P Case := do
+  let count ← pNat
+  let interval ← pInt
+  let _exp ← pNat
+  let rules ← counted pRule
+  let ops ← counted pOp
+  pure ⟨⟨count, interval, rules⟩, ops⟩
+
+/-! rendering -/
+
+def ltBytes : Bytes → Bytes → Bool
+  | [], [] => false
+  | [], _ :: _ => true
+  | _ :: _, [] => false
+  | a :: as, b :: bs => if a < b then true else if b < a then false else ltBytes as bs
+
+def insertSorted (kv : Bytes × Lim) : List (Bytes × Lim) → List (Bytes × Lim)
+  | [] => [kv]
+  | x :: t => if ltBytes kv.1 x.1 then kv :: x :: t else x :: insertSorted kv t
+
+def sortLims (l : List (Bytes × Lim)) : List (Bytes × Lim) := l.foldr insertSorted []
+
+def encLim (kv : Bytes × Lim) : String :=
+  let ncols := match kv.2.b with
+    | r :: _ => r.length
+    | [] => 0
+  unwords ([Hex.enc kv.1, toString kv.2.minID, toString kv.2.maxID, toString kv.2.b.length, toString ncols]
+    ++ kv.2.b.flatten.map toString)
+
+def encShares (rs : List Rule) : String :=
+  unwords (toString rs.length :: rs.map (fun r =>
+    unwords (toString r.distr.defLimit :: toString r.distr.limits.length :: r.distr.limits.map toString)))
+
+def panicStr : Panic → String
+  | .bounds => "panic:bounds"
+  | .nilDeref => "panic:nil"
+  | .other => "panic:other"
+
+/-- keys deleted by the i-th `X` op, read from the implementation's `x:` tokens -/
+def xKeys (t : String) : Option (List Bytes) :=
+  if t.startsWith "x:" then
+    let body := (t.drop 2).toString
+    if body = "" then some [] else (body.splitOn ",").mapM Hex.dec?
+  else none
+
+def encX (ks : List Bytes) : String := "x:" ++ ",".intercalate (ks.map Hex.enc)
+
+/-- model ops of a case, with the observed deletions substituted for the `X` ops -/
+def toOps : List COp → List (List Bytes) → List Op
+  | [], _ => []
+  | .ev e :: t, xs => Op.ev e :: toOps t xs
+  | .x _ :: t, ks :: xs => ks.map Op.expire ++ toOps t xs
+  | .x _ :: t, [] => toOps t []
+
+/-- run the model op by op (the same `step` the theorems are about), rendering result tokens;
+    returns the tokens, the final state, and whether a panic ended the run -/
+def runCase (cfg : Cfg) : State → List COp → List (List Bytes) → List String × State × Bool
+  | s, [], _ => ([], s, false)
+  | s, .ev e :: t, xs =>
+    match step cfg s (.ev e) with
+    | .error p => ([panicStr p], s, true)
+    | .ok sr =>
+      let r := runCase cfg sr.1 t xs
+      ((if sr.2 == Res.pass then "p" else "d") :: r.1, r.2)
+  | s, .x _ :: t, xs =>
+    let ks := match xs with
+      | k :: _ => k
+      | [] => []
+    let s' := ks.foldl (fun st k =>
+      match step cfg st (.expire k) with
+      | .ok sr => sr.1
+      | .error _ => st) s
+    let r := runCase cfg s' t xs.tail
+    (encX ks :: r.1, r.2)
+
+/-- observed answers of the implementation: one per event op, `none` once it panicked / ran out -/
+def implObs : List COp → List String → Option (List (Ev × Bool))
+  | [], _ => some []
+  | .ev e :: t, r :: rs =>
+    if r = "p" then (implObs t rs).map ((e, true) :: ·)
+    else if r = "d" then (implObs t rs).map ((e, false) :: ·)
+    else none
+  | .x _ :: t, _ :: rs => implObs t rs
+  | _ :: _, [] => none
+
+def hasX : List COp → Bool
+  | [] => false
+  | .x _ :: _ => true
+  | .ev _ :: t => hasX t
+
+def verdictStr : SpecC16.Verdict → String
+  | .ok => "ok"
+  | .outOfScope => "ok"
+  | .overLimit => "fail:over-limit"
+  | .rejectedUnderLimit => "fail:rejected-under-limit"
+
+/-- tokens between `R` and `S` (or the end) -/
+def resultToks (impl : List String) : List String :=
+  ((impl.dropWhile (· ≠ "R")).drop 1).takeWhile (· ≠ "S")
+
+def handle (cmd : String) (args impl : List String) : Option (String × String) :=
+  if cmd ≠ "c16.run" then none else
+  match pCase.run args with
+  | none => none
+  | some (c, rest) =>
+    if rest ≠ [] then none else
+    let rtoks := resultToks impl
+    let xs := rtoks.filterMap xKeys
+    let r := runCase c.cfg State.init c.ops xs
+    let dump := if r.2.2 then [] else
+      ["S", toString r.2.1.lims.length] ++ (sortLims r.2.1.lims).map encLim
+    let m := unwords (["H", encShares c.cfg.rules, "R"] ++ r.1 ++ dump)
+    let p := match implObs c.ops rtoks with
+      | some obs => verdictStr (SpecC16.verdict c.cfg obs (!hasX c.ops))
+      | none =>
+        -- the implementation panicked: outside the property's scope only for buckets_count = 0
+        if c.cfg.count = 0 then "ok" else "fail:panic"
+    some (m, p)
 
 end FileD.DrvC16
